@@ -155,6 +155,45 @@ def case_concrete_pow(pp, expo):
     return run
 
 
+def case_array_int_pow(pp, expo):
+    """x ** p for a numpy exponent array whose entries are the integer `expo` >= 1: smooth for EVERY real base, also x = 0 and
+    x < 0 (the generic ndarray-exponent case above needs x > 0 for real powers)."""
+
+    def run(ctx):
+        n, m, i, j, arrs = _setup(ctx, pp)
+        x, X, XJ = arrs[0]
+        xa = SymReal(X.elem(i))
+        p = SymArray.const(n, float(expo), "real")
+        r = x ** p
+        spec = sym.sym_pow(xa, expo)
+        _prove_result(ctx, r, n, m, i, j, rterm(spec), [(X.elem(i), XJ.entry(i, j))])
+        return "ok"
+
+    return run
+
+
+def case_safe_power_int(pp, power):
+    """safe_power with a concrete integer power: base of either sign with |x| > tol; and the regularised region |x| < tol."""
+
+    def run(ctx):
+        n, m, i, j, arrs = _setup(ctx, pp)
+        x, X, XJ = arrs[0]
+        xa = SymReal(X.elem(i))
+        zero_val, tol = ctx.real("zero_val"), ctx.real("tol")
+        ctx.assume(tol > 0)
+        r = pp.ad.functions.safe_power(float(power), zero_val, tol, x)
+        if ctx.branch(z3.Or(xa.t > tol.t, xa.t < -tol.t)):
+            spec = sym.sym_pow(xa, power)
+            _prove_result(ctx, r, n, m, i, j, rterm(spec), [(X.elem(i), XJ.entry(i, j))], label="|x| > tol: ")
+        else:
+            ctx.assume(SymBool(z3.And(xa.t < tol.t, xa.t > -tol.t)))
+            ctx.prove("|x| < tol: value is zero_val", SymBool(rterm(r.val.at(i)) == zero_val.t))
+            ctx.prove("|x| < tol: Jacobian row is zero", SymBool(r.jac.entry(i, j) == 0))
+        return "ok"
+
+    return run
+
+
 def case_neg_copy(pp, which):
     def run(ctx):
         n, m, i, j, arrs = _setup(ctx, pp)
@@ -658,6 +697,12 @@ def run(rep):
                 refuted += rf
         for e in (2.0, 3, -1.0, 0.5, -2.0):
             rf, _ = run_case(rep, f"AdArray.__pow__({e!r})", case_concrete_pow(pp, e))
+            refuted += rf
+        for e in (1, 2, 3):
+            rf, _ = run_case(rep, f"AdArray.__pow__(ndarray of {e}s), any real base", case_array_int_pow(pp, e))
+            refuted += rf
+        for e in (2, 3, -1, -2):
+            rf, _ = run_case(rep, f"functions.safe_power(power={e}), base of either sign", case_safe_power_int(pp, e))
             refuted += rf
         for w in ("neg", "copy"):
             rf, _ = run_case(rep, f"AdArray.{w}", case_neg_copy(pp, w))
